@@ -160,8 +160,9 @@ func RandomConfig(sys string, r *rand.Rand, maxIn, maxItems, maxCap int) Config 
 	return c
 }
 
-// SmallConfigs enumerates every configuration of the system with exactly `inputs` inputs (where the
-// system allows choosing), every item count 0..items per input and every capacity 0..maxCap.
+// SmallConfigs enumerates every configuration of the system with exactly `inputs` inputs (fmap and
+// dup always have one; joinsel has the variant with that many), every item count 0..items per input
+// and every capacity 0..maxCap (also of the outer channel / channel b).
 func SmallConfigs(sys string, inputs, items, maxCap int) []Config {
 	var out []Config
 	for _, variant := range Variants[sys] {
@@ -174,7 +175,7 @@ func SmallConfigs(sys string, inputs, items, maxCap int) []Config {
 			if variant == "JoinV3" {
 				n = 3
 			}
-			if n != inputs && !(inputs < 2 && n == 2) {
+			if n != inputs {
 				continue
 			}
 		}
